@@ -481,6 +481,40 @@ impl<'a> Exec<'a> {
                 Ok(())
             }
             Ev::Reset => self.do_reset(),
+            Ev::Resets { n } => {
+                // reset storm: n-1 bare resets on every instance, then one fully checked reset
+                let n = (*n).max(1);
+                self.p.reset_storm_resets += (n - 1) as u64;
+                if n > 1 {
+                    let (m, solo, twin, fresh, forks) = (&mut self.main, &mut self.solo, &mut self.twin, &mut self.fresh, &mut self.forks);
+                    api(L::scanner_reset, || {
+                        for _ in 1..n {
+                            m.cc.reset();
+                            m.pn.reset();
+                            m.po.reset();
+                            for s in solo.iter_mut() {
+                                s.cc.reset();
+                                s.pn.reset();
+                                s.po.reset();
+                            }
+                            twin.cc.reset();
+                            twin.pn.reset();
+                            twin.po.reset();
+                            if let Some(f) = fresh.as_mut() {
+                                f.cc.reset();
+                                f.pn.reset();
+                                f.po.reset();
+                            }
+                            for f in forks.iter_mut() {
+                                f.copy.cc.reset();
+                                f.copy.pn.reset();
+                                f.copy.po.reset();
+                            }
+                        }
+                    })?;
+                }
+                self.do_reset()
+            }
             Ev::Poll { ch } => self.do_poll(*ch),
             Ev::Feed { b, repr } => self.deliver(*b, *repr, None),
             Ev::Part { g, i, repr, x } => {
